@@ -79,3 +79,5 @@ def check(ctx, rep):
         Q2.rule_run_exit(qm, keep, Q2.rule_stop(qm, keep))
     S.rule_D3(ctx, rep, methods=('flush',))
     S.rule_forwarding_impls(ctx, rep, 'F1', methods=('flush',))
+    from . import sockets as SK
+    SK.rule_socket_untouched(ctx, rep, 'S1')
